@@ -16,15 +16,9 @@ def repo_path() -> str:
 
 
 def ensure_deps() -> None:
-    """icontract beside the repository's interpreter (git-ignored .deps, rebuilt on demand)."""
-    if not os.path.isdir(os.path.join(DEPS, "icontract")):
-        subprocess.run(
-            [sys.executable, "-m", "pip", "install", "--no-index", "--find-links", WHEELS,
-             "--target", DEPS, "--quiet", "icontract"],
-            check=False, stdout=subprocess.DEVNULL, stderr=subprocess.DEVNULL,
-        )
-    if DEPS not in sys.path:
-        sys.path.insert(1, DEPS)
+    """Nothing to install: the monitors are plain wrappers (DESIGN 10.1); everything runs on the repository's own
+    interpreter and the standard library.  Kept as the single place where a dependency would be added."""
+    return None
 
 
 def use_repo() -> str:
